@@ -228,6 +228,7 @@ func (s *symtab) commands() []command {
 
 // the value shapes other than "valid for that slot", as JSON text
 var shapes = []string{
+	`"` + otherLenPeerID() + `"`, // a well-formed peer id that is not 39 bytes long (sha2-256 multihash, 34 bytes)
 	`"Xx_not-valid-anything_!"`, // a string that is no name, no address, no number
 	`"` + lx.NameB + `"`,        // a registered 12-character name
 	`"` + unknownName + `"`,     // an unregistered 12-character name
@@ -239,6 +240,15 @@ var shapes = []string{
 	`true`,
 	`{}`,
 	`[]`,
+}
+
+func otherLenPeerID() string {
+	raw := append([]byte{0x12, 0x20}, bytes.Repeat([]byte{0x5a}, 32)...)
+	id, err := types.IDFromBytes(raw)
+	if err != nil {
+		panic(err)
+	}
+	return types.IDB58Encode(id)
 }
 
 func js(v interface{}) string {
@@ -416,7 +426,7 @@ func enumerate(tier string, w *world, f func(Case) bool) {
 
 func init() {
 	// the command table is what the Rule text promises
-	if n := len(shapes) + 1; n != 12 {
+	if n := len(shapes) + 1; n != 13 {
 		panic(fmt.Sprint("shapes: ", n))
 	}
 }
